@@ -94,6 +94,31 @@ func txCallbacks(w *load.World) []txCallback {
 			}
 		}
 	}
+	// a callback that does nothing but call a function its enclosing helper was handed ("return
+	// f(b)"): what the callers of the helper pass is what runs inside the transaction
+	seenCb := map[*ssa.Function]bool{}
+	for _, cb := range out {
+		seenCb[cb.Fn] = true
+	}
+	for _, cb := range append([]txCallback{}, out...) {
+		if cb.Fn == nil {
+			continue
+		}
+		for _, b := range cb.Fn.Blocks {
+			for _, in := range b.Instrs {
+				call, ok := in.(*ssa.Call)
+				if !ok || call.Call.IsInvoke() || call.Call.StaticCallee() != nil {
+					continue
+				}
+				for _, fn := range funcValuesOf(w, call.Call.Value, 0) {
+					if !seenCb[fn] && fn.Parent() != nil {
+						seenCb[fn] = true
+						out = append(out, txCallback{fn, cb.Site, cb.Write})
+					}
+				}
+			}
+		}
+	}
 	return out
 }
 
